@@ -35,7 +35,7 @@ UserFromObs(o, c, now) ==
    last |-> IF o.winLeft < 0 THEN NEVER ELSE now - (c.lockWindow - o.winLeft),
    lockedUntil |-> IF o.lockLeft < 0 THEN NEVER ELSE now + o.lockLeft,
    otps |-> ToSet(o.otps), rcg |-> o.rcg, rcLeft |-> ToSet(o.rcLeft),
-   totp |-> o.totp, totpLast |-> 0, sms |-> o.sms, arb |-> ToSet(o.arb)]
+   totp |-> o.totp, totpLast |-> o.totpLast, sms |-> o.sms, arb |-> ToSet(o.arb)]
 
 SessFromObs(o, c, now) ==
   [uid |-> o.uid, half |-> o.half, twofa |-> o.twofa,
@@ -49,13 +49,14 @@ SessFromObs(o, c, now) ==
                ELSE now - (c.expireAfter - o.expLeft),
    app1 |-> o.app1, app2 |-> o.app2]
 
-FromObs(o, c, iss) ==
+FromObs(o, c, iss, scp) ==
   [now |-> o.now,
    db |-> [p \in Pids |-> IF p \in DOMAIN o.db THEN UserFromObs(o.db[p], c, o.now) ELSE NoUser],
    rm |-> {[o |-> t.o, id |-> t.id] : t \in ToSet(o.rm)},
    sess |-> [b \in Browsers |-> IF b \in DOMAIN o.sess THEN SessFromObs(o.sess[b], c, o.now) ELSE EmptySess],
    cookie |-> [b \in Browsers |-> IF b \in DOMAIN o.cookie THEN o.cookie[b] ELSE 0],
-   iss |-> [k \in Kinds |-> iss[k]]]
+   iss |-> [k \in Kinds |-> iss[k]],
+   scPhone |-> scp]
 
 -----------------------------------------------------------------------------
 (* specification state  ->  the observable projection (what Go's Project emits) *)
@@ -67,7 +68,8 @@ UserObs(u, c, now) ==
    rLeft |-> IF u.rTok = 0 THEN -1 ELSE Clip(u.rExp - now),
    att |-> u.att, winLeft |-> Clip(c.lockWindow - (now - u.last)),
    lockLeft |-> Clip(u.lockedUntil - now),
-   otps |-> u.otps, rcg |-> u.rcg, rcLeft |-> u.rcLeft, totp |-> u.totp, sms |-> u.sms, arb |-> u.arb]
+   otps |-> u.otps, rcg |-> u.rcg, rcLeft |-> u.rcLeft, totp |-> u.totp, totpLast |-> u.totpLast,
+   sms |-> u.sms, arb |-> u.arb]
 
 SessObs(s, c, now) ==
   [uid |-> s.uid, half |-> s.half, twofa |-> s.twofa, totpPend |-> s.totpPend,
@@ -79,7 +81,7 @@ SessObs(s, c, now) ==
    app1 |-> s.app1, app2 |-> s.app2]
 
 UserFields == {"ex", "pw", "conf", "cTok", "rTok", "rLeft", "att", "winLeft", "lockLeft",
-               "otps", "rcg", "rcLeft", "totp", "sms", "arb"}
+               "otps", "rcg", "rcLeft", "totp", "totpLast", "sms", "arb"}
 SetFields  == {"otps", "rcLeft", "arb"}
 SessFields == {"uid", "half", "twofa", "totpPend", "smsPend", "smsCode", "smsFresh", "totpSetup",
                "smsNum", "oState", "oHas", "oRm", "oRedir", "tfaTok", "tfaAuthed", "expLeft",
@@ -137,7 +139,8 @@ TraceInit ==
 StepLine(line) ==
   LET e    == line.e
       r    == Apply(st, cfg, e)
-      S2   == FromObs(line.post, cfg, line.iss)
+      S2   == FromObs(line.post, cfg, line.iss,
+                      st.scPhone \cup {<<s.code, s.phone>> : s \in SmsObsSet(line.resp.sms)})
       d    == Diff(r.st, cfg, line.post) \cup (IF e.act \in EnvActs THEN {} ELSE RespDiff(r.resp, line.resp))
       pv   == PropViolations(st, S2, cfg, e, RespFromObs(line.resp))
       add1 == IF d = {} THEN <<>>
@@ -157,7 +160,7 @@ TraceNext ==
   /\ LET line == T[l] IN
        IF line.kind = "init"
        THEN /\ cfg' = CfgOf(line)
-            /\ st' = FromObs(line.post, cfg', line.iss)
+            /\ st' = FromObs(line.post, cfg', line.iss, {})
             /\ resp' = R0
             /\ rep' = rep
        ELSE StepLine(line)
